@@ -3,15 +3,21 @@ package main
 // C15: distinguished names are rendered unambiguously (RFC 4514).
 //
 // ops: escape (hook vs model), dn (names.FromRDNSequence), rawdn (names.FromRawDN),
-// cert (Subject / Issuer attributes of file.Inspect on certificates built around
-// hand-encoded names).  Certificate requests are not an op: file.Inspect never calls parseCSR.  Input formats are described in coq/Run/C15.v.
+// cert (Subject / Issuer attributes of file.Inspect on one certificate built around
+// hand-encoded names, presented as DER / PEM / PEM after text / base64), chain (the same for
+// every certificate of a PEM bundle or a Java keystore).  Certificate requests are not an op:
+// file.Inspect never calls parseCSR (and parsePEMBlock has no case for CERTIFICATE REQUEST).
+// Input formats are described in coq/Run/C15.v.
 
 import (
+	"bytes"
 	"crypto/ed25519"
 	"crypto/x509"
 	"crypto/x509/pkix"
 	"encoding/asn1"
+	"encoding/base64"
 	"encoding/binary"
+	"encoding/pem"
 	"fmt"
 	"math/big"
 	"os"
@@ -443,10 +449,10 @@ func attrOf(i file.Info, name string) (string, bool) {
 	return "", false
 }
 
-func (g *c15Gen) inspectBytes(data []byte) (file.Info, bool) {
+func (g *c15Gen) inspectBytes(name string, data []byte) (file.Info, bool) {
 	dir := filepath.Join(g.c.Tmp, "c15")
 	os.MkdirAll(dir, 0o755)
-	p := filepath.Join(dir, "name.der")
+	p := filepath.Join(dir, name)
 	if err := os.WriteFile(p, data, 0o644); err != nil {
 		return file.Info{}, false
 	}
@@ -462,9 +468,10 @@ func (g *c15Gen) inspectBytes(data []byte) (file.Info, bool) {
 
 var c15Key ed25519.PrivateKey
 
-func (g *c15Gen) emitCert(tag string, subj, iss []byte) {
-	// ed25519 only (deterministic); crypto calls get their own sub-generator so that the
-	// number of bytes they draw can never shift the case stream
+// certDER: a certificate around the two encoded names.  ed25519 only (deterministic); crypto
+// calls get their own sub-generator so that the number of bytes they draw can never shift
+// the case stream.
+func (g *c15Gen) certDER(subj, iss []byte) ([]byte, bool) {
 	if c15Key == nil {
 		_, c15Key, _ = ed25519.GenerateKey(NewRng(g.c.R.U64()))
 	}
@@ -478,26 +485,71 @@ func (g *c15Gen) emitCert(tag string, subj, iss []byte) {
 	der, err := x509.CreateCertificate(NewRng(g.c.R.U64()), tmpl, parent, c15Key.Public(), c15Key)
 	if err != nil {
 		fmt.Fprintln(os.Stderr, "c15: CreateCertificate:", err)
+		return nil, false
+	}
+	return der, true
+}
+
+// c15Collect: the (Subject, Issuer) texts of every certificate shown in the tree, in order.
+func c15Collect(i file.Info, out *[][2]string) {
+	s, ok1 := attrOf(i, "Subject")
+	is, ok2 := attrOf(i, "Issuer")
+	if ok1 && ok2 && strings.Contains(i.Description, "certificate") {
+		*out = append(*out, [2]string{s, is})
+	}
+	for _, c := range i.Children {
+		c15Collect(c, out)
+	}
+}
+
+// the presentations of ONE certificate that file.Inspect reads as a certificate
+var c15Carriers = []string{"der", "pem", "pemtext", "b64"}
+
+func c15Carry(carrier string, der []byte) (string, []byte) {
+	switch carrier {
+	case "pem":
+		return "name.pem", pem.EncodeToMemory(&pem.Block{Type: "CERTIFICATE", Bytes: der})
+	case "pemtext":
+		return "name.crt", append([]byte("Bag Attributes\n    friendlyName: x\nsubject=/CN=not this one\nissuer=/CN=nor this\n"),
+			pem.EncodeToMemory(&pem.Block{Type: "TRUSTED CERTIFICATE", Bytes: der})...)
+	case "b64":
+		return "name.b64", []byte(base64.StdEncoding.EncodeToString(der))
+	default:
+		return "name.der", der
+	}
+}
+
+// emitCertIn: one certificate in one presentation.  [accepted] is the library's verdict on the
+// DER (crypto/x509.ParseCertificate), not the inspected code's: a certificate the library reads
+// must be shown with both names.
+func (g *c15Gen) emitCertIn(tag, carrier string, subjIn, issIn SL, subj, iss []byte) {
+	der, ok := g.certDER(subj, iss)
+	if !ok {
 		return
 	}
-	accepted := false
+	_, perr := x509.ParseCertificate(der)
+	accepted := perr == nil
+	name, data := c15Carry(carrier, der)
 	obs := guard(func() Sx {
-		i, ok := g.inspectBytes(der)
+		i, ok := g.inspectBytes(name, data)
 		if !ok {
 			return ObsErr()
 		}
-		s, ok1 := attrOf(i, "Subject")
-		is, ok2 := attrOf(i, "Issuer")
-		if !ok1 || !ok2 || !strings.Contains(i.Description, "certificate") {
+		var got [][2]string
+		c15Collect(i, &got)
+		if len(got) != 1 {
 			return ObsErr()
 		}
-		accepted = true
-		return ObsOk(SL{S(s), S(is)})
+		return ObsOk(SL{S(got[0][0]), S(got[0][1])})
 	})
 	if !accepted {
 		tag = "rejected"
 	}
-	g.c.Emit("cert:"+tag, SL{Bool(accepted), rawInput(subj), rawInput(iss)}, obs)
+	g.c.Emit("cert:"+tag, SL{Bool(accepted), subjIn, issIn, S(carrier)}, obs)
+}
+
+func (g *c15Gen) emitCert(tag string, subj, iss []byte) {
+	g.emitCertIn(tag, "der", rawInput(subj), rawInput(iss), subj, iss)
 }
 
 func (g *c15Gen) emitDN(tag string, rdns pkix.RDNSequence) {
@@ -834,6 +886,793 @@ func dnDERRaw(rdns [][]c15ATVRaw) []byte {
 	return c15_derTLV(0x30, seq)
 }
 
+// ---------- related issuer / subject pairs ----------
+// getCertificateInfo renders the two names of a certificate; any shortcut between them
+// (render once when they "are equal", cache by a normalised key, reuse a buffer) shows when
+// the two names are RELATED: equal, equal up to RDN order, grouping into RDNs, string type,
+// case, spaces, an escaped character, a prefix, a short name.  A name here is kept with the
+// strings it was built from, and the spec checker gets THAT as the name in the certificate
+// (not the library's decoding of the DER).
+
+type c15A struct {
+	oid []int
+	tag int
+	s   string
+}
+type c15N [][]c15A // certificate order
+
+func (n c15N) clone() c15N {
+	out := make(c15N, len(n))
+	for i, r := range n {
+		out[i] = append([]c15A{}, r...)
+	}
+	return out
+}
+
+func (n c15N) der() []byte {
+	rdns := make([][]c15ATV, len(n))
+	for i, r := range n {
+		for _, a := range r {
+			rdns[i] = append(rdns[i], c15ATV{a.oid, strTLV(a.tag, a.s)})
+		}
+	}
+	return dnDER(rdns)
+}
+
+func (n c15N) input() SL {
+	out := SL{}
+	for _, r := range n {
+		rl := SL{}
+		for _, a := range r {
+			rl = append(rl, SL{c15_arcsSx(a.oid), I(0), S(a.s)})
+		}
+		out = append(out, rl)
+	}
+	d := n.der()
+	return SL{SB(d), parsedOracle(d), SL{I(0), out}}
+}
+
+func (n c15N) attrs() int {
+	k := 0
+	for _, r := range n {
+		k += len(r)
+	}
+	return k
+}
+
+// c15Carries: the string type can carry exactly s (conservative: TeletexString for ASCII only;
+// BMPString without NUL, the library strips a trailing one as a terminator)
+func c15Carries(tag int, s string) bool {
+	switch tag {
+	case tagUTF8:
+		return utf8.ValidString(s)
+	case tagPrintable:
+		return isPrintableStr(s)
+	case tagIA5, tagT61:
+		return isASCII(s)
+	case tagNumeric:
+		for i := 0; i < len(s); i++ {
+			if !(s[i] == ' ' || '0' <= s[i] && s[i] <= '9') {
+				return false
+			}
+		}
+		return true
+	case tagBMP:
+		if !utf8.ValidString(s) {
+			return false
+		}
+		for _, c := range s {
+			if c == 0 || c > 0xFFFF {
+				return false
+			}
+		}
+		return true
+	}
+	return false
+}
+
+var c15StrTags = []int{tagUTF8, tagPrintable, tagIA5, tagT61, tagBMP, tagNumeric}
+
+func c15OtherTag(r *Rng, a c15A) (int, bool) {
+	var c []int
+	for _, t := range c15StrTags {
+		if t != a.tag && c15Carries(t, a.s) {
+			c = append(c, t)
+		}
+	}
+	if len(c) == 0 {
+		return 0, false
+	}
+	return c[r.Intn(len(c))], true
+}
+
+func (a *c15A) set(r *Rng, s string) {
+	a.s = s
+	if !c15Carries(a.tag, s) {
+		a.tag = tagUTF8
+		if r.Bool() {
+			a.tag = fitTag(r, s)
+		}
+	}
+}
+
+// the nine types pkix.Name knows first, then types with and without a short name
+var c15PairTypes = [][]int{
+	{2, 5, 4, 6}, {2, 5, 4, 10}, {2, 5, 4, 11}, {2, 5, 4, 7}, {2, 5, 4, 8}, {2, 5, 4, 9}, {2, 5, 4, 17}, {2, 5, 4, 3}, {2, 5, 4, 5},
+	{0, 9, 2342, 19200300, 100, 1, 25}, {0, 9, 2342, 19200300, 100, 1, 1}, {1, 2, 840, 113549, 1, 9, 1},
+	{2, 5, 4, 4}, {2, 5, 4, 42}, {2, 5, 4, 12}, {1, 3, 6, 1, 4, 1, 311, 60, 2, 1, 3},
+	{1, 2, 3, 4}, {2, 5, 4, 3, 0}, {2, 999, 1}, {2, 5, 4}, {1, 3, 6, 1, 4, 1, 99999, 1},
+}
+
+var c15PairValues = []string{
+	"US", "Acme, Inc.", "Acme CA", "www.example.com", "x", "y", "a+b", "a", "b", "A", "\u00e9", "Zo\u00eb \u00c4", " lead", "trail ",
+	"#hash", "a#b", "q\"uote", "back\\slash", "semi;colon", "<angle>", "eq=ual", "CN=x", "a,O=b", "a+O=b", "  ", " ", "",
+	"\u65e5\u672c\u8a9e", "\U0001F600", "e\u0301", "\u0301#", "\u00a0", "a\x00b", "line\nfeed", "1234", "12 34", "\u00e9 ", " \u00e9", "#\u00e9", "x\\",
+}
+
+func (g *c15Gen) pairType(r *Rng) []int {
+	switch r.Intn(6) {
+	case 0:
+		return c15RandOID(r, g.table, true)
+	case 1, 2:
+		return c15PairTypes[r.Intn(len(c15PairTypes))]
+	default:
+		return c15PairTypes[r.Intn(9)]
+	}
+}
+
+func (g *c15Gen) pairValue(r *Rng, specials []string) string {
+	switch r.Intn(8) {
+	case 0:
+		return specials[r.Intn(len(specials))]
+	case 1:
+		return c15RandString(r, 1+r.Intn(8))
+	default:
+		return c15PairValues[r.Intn(len(c15PairValues))]
+	}
+}
+
+func (g *c15Gen) pairAttr(r *Rng, specials []string) c15A {
+	s := g.pairValue(r, specials)
+	return c15A{g.pairType(r), fitTag(r, s), s}
+}
+
+func (g *c15Gen) pairBase(r *Rng, specials []string) c15N {
+	var n c15N
+	for k := 1 + r.Intn(5); k > 0; k-- {
+		m := 1
+		if r.Intn(4) == 0 {
+			m = 2 + r.Intn(2)
+		}
+		var rdn []c15A
+		for ; m > 0; m-- {
+			a := g.pairAttr(r, specials)
+			if all := n.attrs(); all > 0 && r.Intn(4) == 0 {
+				// the same type again (pkix.Name merges the values of one type)
+				i := r.Intn(len(n))
+				if len(n[i]) > 0 {
+					a.oid = n[i][r.Intn(len(n[i]))].oid
+				}
+			}
+			rdn = append(rdn, a)
+		}
+		n = append(n, rdn)
+	}
+	return n
+}
+
+func (g *c15Gen) typeText(o []int) string {
+	var p []string
+	for _, a := range o {
+		p = append(p, fmt.Sprint(a))
+	}
+	d := strings.Join(p, ".")
+	for _, row := range g.table {
+		if row[0] == d {
+			return row[1]
+		}
+	}
+	return d
+}
+
+type c15Rel struct {
+	name string
+	f    func(r *Rng, n c15N) (c15N, bool)
+}
+
+// positions of the attributes satisfying pred
+func c15Where(n c15N, pred func(a c15A) bool) [][2]int {
+	var out [][2]int
+	for i, r := range n {
+		for j, a := range r {
+			if pred(a) {
+				out = append(out, [2]int{i, j})
+			}
+		}
+	}
+	return out
+}
+
+func c15OnValue(pred func(s string) bool, f func(r *Rng, s string) string) func(r *Rng, n c15N) (c15N, bool) {
+	return func(r *Rng, n c15N) (c15N, bool) {
+		ps := c15Where(n, func(a c15A) bool { return pred(a.s) })
+		if len(ps) == 0 {
+			return nil, false
+		}
+		p := ps[r.Intn(len(ps))]
+		m := n.clone()
+		m[p[0]][p[1]].set(r, f(r, m[p[0]][p[1]].s))
+		return m, true
+	}
+}
+
+func c15Multi(n c15N) []int {
+	var out []int
+	for i, r := range n {
+		if len(r) >= 2 {
+			out = append(out, i)
+		}
+	}
+	return out
+}
+
+const c15Escapable = ",+\"\\<>;#= "
+
+func anyStr(string) bool { return true }
+
+// the relations between the two names of a pair; each returns a name built from n
+func (g *c15Gen) rels() []c15Rel {
+	return []c15Rel{
+		{"same", func(r *Rng, n c15N) (c15N, bool) { return n.clone(), true }},
+		// ---- the same RDNs in another order
+		{"rdn-reverse", func(r *Rng, n c15N) (c15N, bool) {
+			if len(n) < 2 {
+				return nil, false
+			}
+			m := n.clone()
+			for i, j := 0, len(m)-1; i < j; i, j = i+1, j-1 {
+				m[i], m[j] = m[j], m[i]
+			}
+			return m, true
+		}},
+		{"rdn-swap", func(r *Rng, n c15N) (c15N, bool) {
+			if len(n) < 2 {
+				return nil, false
+			}
+			m := n.clone()
+			i := r.Intn(len(m) - 1)
+			m[i], m[i+1] = m[i+1], m[i]
+			return m, true
+		}},
+		{"rdn-rotate", func(r *Rng, n c15N) (c15N, bool) {
+			if len(n) < 2 {
+				return nil, false
+			}
+			k := 1 + r.Intn(len(n)-1)
+			m := n.clone()
+			return append(m[k:], m[:k]...), true
+		}},
+		{"rdn-shuffle", func(r *Rng, n c15N) (c15N, bool) {
+			if len(n) < 3 {
+				return nil, false
+			}
+			m := n.clone()
+			for i := len(m) - 1; i > 0; i-- {
+				j := r.Intn(i + 1)
+				m[i], m[j] = m[j], m[i]
+			}
+			return m, true
+		}},
+		// ---- the same attributes in another order inside a multi-valued RDN
+		{"atv-permute", func(r *Rng, n c15N) (c15N, bool) {
+			ms := c15Multi(n)
+			if len(ms) == 0 {
+				return nil, false
+			}
+			m := n.clone()
+			i := ms[r.Intn(len(ms))]
+			k := 1 + r.Intn(len(m[i])-1)
+			m[i] = append(append([]c15A{}, m[i][k:]...), m[i][:k]...)
+			return m, true
+		}},
+		// ---- regrouped: k RDNs of one attribute / one RDN of k attributes
+		{"merge-all", func(r *Rng, n c15N) (c15N, bool) {
+			if len(n) < 2 {
+				return nil, false
+			}
+			var all []c15A
+			for _, rdn := range n {
+				all = append(all, rdn...)
+			}
+			return c15N{all}, true
+		}},
+		{"merge-two", func(r *Rng, n c15N) (c15N, bool) {
+			if len(n) < 2 {
+				return nil, false
+			}
+			m := n.clone()
+			i := r.Intn(len(m) - 1)
+			m[i] = append(m[i], m[i+1]...)
+			return append(m[:i+1], m[i+2:]...), true
+		}},
+		// [x] [y] is printed y,x: merged as [y x] it is printed y+x (one separator differs)
+		{"merge-two-rev", func(r *Rng, n c15N) (c15N, bool) {
+			if len(n) < 2 {
+				return nil, false
+			}
+			m := n.clone()
+			i := r.Intn(len(m) - 1)
+			m[i] = append(append([]c15A{}, m[i+1]...), m[i]...)
+			return append(m[:i+1], m[i+2:]...), true
+		}},
+		{"split", func(r *Rng, n c15N) (c15N, bool) {
+			ms := c15Multi(n)
+			if len(ms) == 0 {
+				return nil, false
+			}
+			i := ms[r.Intn(len(ms))]
+			var m c15N
+			m = append(m, n[:i].clone()...)
+			for _, a := range n[i] {
+				m = append(m, []c15A{a})
+			}
+			return append(m, n[i+1:].clone()...), true
+		}},
+		{"split-rev", func(r *Rng, n c15N) (c15N, bool) {
+			ms := c15Multi(n)
+			if len(ms) == 0 {
+				return nil, false
+			}
+			i := ms[r.Intn(len(ms))]
+			var m c15N
+			m = append(m, n[:i].clone()...)
+			for j := len(n[i]) - 1; j >= 0; j-- {
+				m = append(m, []c15A{n[i][j]})
+			}
+			return append(m, n[i+1:].clone()...), true
+		}},
+		{"split-all", func(r *Rng, n c15N) (c15N, bool) {
+			if len(c15Multi(n)) == 0 {
+				return nil, false
+			}
+			var m c15N
+			for _, rdn := range n {
+				for _, a := range rdn {
+					m = append(m, []c15A{a})
+				}
+			}
+			return m, true
+		}},
+		// ---- the same text in another string type
+		{"retag-one", func(r *Rng, n c15N) (c15N, bool) {
+			ps := c15Where(n, func(a c15A) bool { _, ok := c15OtherTag(r, a); return ok })
+			if len(ps) == 0 {
+				return nil, false
+			}
+			p := ps[r.Intn(len(ps))]
+			m := n.clone()
+			m[p[0]][p[1]].tag, _ = c15OtherTag(r, m[p[0]][p[1]])
+			return m, true
+		}},
+		{"retag-all", func(r *Rng, n c15N) (c15N, bool) {
+			m := n.clone()
+			changed := false
+			for i := range m {
+				for j := range m[i] {
+					if t, ok := c15OtherTag(r, m[i][j]); ok {
+						m[i][j].tag, changed = t, true
+					}
+				}
+			}
+			return m, changed
+		}},
+		// ---- case, spaces, one escaped character
+		{"case-one", c15OnValue(func(s string) bool { return strings.ToUpper(s) != s || strings.ToLower(s) != s },
+			func(r *Rng, s string) string {
+				rs := []rune(s)
+				for tries := 0; tries < 64; tries++ {
+					i := r.Intn(len(rs))
+					u, l := []rune(strings.ToUpper(string(rs[i]))), []rune(strings.ToLower(string(rs[i])))
+					if len(u) == 1 && u[0] != rs[i] {
+						rs[i] = u[0]
+						return string(rs)
+					}
+					if len(l) == 1 && l[0] != rs[i] {
+						rs[i] = l[0]
+						return string(rs)
+					}
+				}
+				return strings.ToUpper(s) + "X"
+			})},
+		{"case-all", c15OnValue(func(s string) bool { return strings.ToUpper(s) != s || strings.ToLower(s) != s },
+			func(r *Rng, s string) string {
+				if u := strings.ToUpper(s); u != s {
+					return u
+				}
+				return strings.ToLower(s)
+			})},
+		{"space-lead", c15OnValue(anyStr, func(r *Rng, s string) string { return " " + s })},
+		{"space-trail", c15OnValue(anyStr, func(r *Rng, s string) string { return s + " " })},
+		{"space-both", c15OnValue(anyStr, func(r *Rng, s string) string { return " " + s + " " })},
+		{"space-inner", c15OnValue(func(s string) bool { return utf8.RuneCountInString(s) >= 2 }, func(r *Rng, s string) string {
+			rs := []rune(s)
+			i := 1 + r.Intn(len(rs)-1)
+			return string(rs[:i]) + " " + string(rs[i:])
+		})},
+		{"space-strip", c15OnValue(func(s string) bool { return strings.TrimSpace(s) != s }, func(r *Rng, s string) string { return strings.Trim(s, " ") })},
+		// the value of the other name is the TEXT of this one's value (a backslash before a special)
+		{"escape-literal", c15OnValue(func(s string) bool { return strings.ContainsAny(s, c15Escapable) }, func(r *Rng, s string) string {
+			i := strings.IndexAny(s, c15Escapable)
+			if r.Bool() {
+				i = strings.LastIndexAny(s, c15Escapable)
+			}
+			return s[:i] + "\\" + s[i:]
+		})},
+		{"special-replace", c15OnValue(func(s string) bool { return s != "" }, func(r *Rng, s string) string {
+			rs := []rune(s)
+			i := []int{0, len(rs) - 1, r.Intn(len(rs))}[r.Intn(3)]
+			c := rune(c15Escapable[r.Intn(len(c15Escapable))])
+			if rs[i] == c {
+				c = 'z'
+			}
+			rs[i] = c
+			return string(rs)
+		})},
+		{"special-insert", c15OnValue(anyStr, func(r *Rng, s string) string {
+			rs := []rune(s)
+			i := []int{0, len(rs), r.Intn(len(rs) + 1)}[r.Intn(3)]
+			c := string(c15Escapable[r.Intn(len(c15Escapable))])
+			return string(rs[:i]) + c + string(rs[i:])
+		})},
+		{"sharp", c15OnValue(anyStr, func(r *Rng, s string) string { return "#" + s })},
+		{"hex-text", c15OnValue(anyStr, func(r *Rng, s string) string { return fmt.Sprintf("#%x", strTLV(tagUTF8, s)) })},
+		// ---- a value that looks like structure: the last two RDNs [x] [y] (printed y,x) become one
+		//      attribute whose value is that text; the attributes x+y of one RDN likewise
+		{"forge-comma", func(r *Rng, n c15N) (c15N, bool) {
+			k := len(n)
+			if k < 2 || len(n[k-1]) != 1 || len(n[k-2]) != 1 {
+				return nil, false
+			}
+			m := n[:k-1].clone()
+			y, x := n[k-1][0], n[k-2][0]
+			a := c15A{oid: y.oid, tag: y.tag}
+			a.set(r, y.s+","+g.typeText(x.oid)+"="+x.s)
+			m[k-2] = []c15A{a}
+			return m, true
+		}},
+		{"forge-plus", func(r *Rng, n c15N) (c15N, bool) {
+			ms := c15Multi(n)
+			if len(ms) == 0 {
+				return nil, false
+			}
+			i := ms[r.Intn(len(ms))]
+			m := n.clone()
+			x, y := m[i][0], m[i][1]
+			a := c15A{oid: x.oid, tag: x.tag}
+			a.set(r, x.s+"+"+g.typeText(y.oid)+"="+y.s)
+			m[i] = append([]c15A{a}, m[i][2:]...)
+			return m, true
+		}},
+		// ---- one a prefix of the other
+		{"drop-first-rdn", func(r *Rng, n c15N) (c15N, bool) {
+			if len(n) == 0 {
+				return nil, false
+			}
+			return n[1:].clone(), true
+		}},
+		{"drop-last-rdn", func(r *Rng, n c15N) (c15N, bool) {
+			if len(n) == 0 {
+				return nil, false
+			}
+			return n[:len(n)-1].clone(), true
+		}},
+		{"drop-atv", func(r *Rng, n c15N) (c15N, bool) {
+			ms := c15Multi(n)
+			if len(ms) == 0 {
+				return nil, false
+			}
+			i := ms[r.Intn(len(ms))]
+			m := n.clone()
+			m[i] = m[i][:len(m[i])-1]
+			return m, true
+		}},
+		{"value-shorter", c15OnValue(func(s string) bool { return s != "" }, func(r *Rng, s string) string {
+			rs := []rune(s)
+			if r.Bool() {
+				return string(rs[1:])
+			}
+			return string(rs[:len(rs)-1])
+		})},
+		{"value-longer", c15OnValue(anyStr, func(r *Rng, s string) string { return s + string(c15RandRune(r)) })},
+		// ---- attribute types with and without a short name
+		{"type-unnamed", func(r *Rng, n c15N) (c15N, bool) {
+			ps := c15Where(n, func(c15A) bool { return true })
+			if len(ps) == 0 {
+				return nil, false
+			}
+			p := ps[r.Intn(len(ps))]
+			m := n.clone()
+			m[p[0]][p[1]].oid = append(append([]int{}, m[p[0]][p[1]].oid...), r.Intn(3))
+			return m, true
+		}},
+		{"type-other", func(r *Rng, n c15N) (c15N, bool) {
+			ps := c15Where(n, func(c15A) bool { return true })
+			if len(ps) == 0 {
+				return nil, false
+			}
+			p := ps[r.Intn(len(ps))]
+			m := n.clone()
+			o := g.pairType(r)
+			if fmt.Sprint(o) == fmt.Sprint(m[p[0]][p[1]].oid) {
+				o = []int{1, 2, 3, 4, 5}
+			}
+			m[p[0]][p[1]].oid = o
+			return m, true
+		}},
+		{"type-swap", func(r *Rng, n c15N) (c15N, bool) {
+			ps := c15Where(n, func(c15A) bool { return true })
+			if len(ps) < 2 {
+				return nil, false
+			}
+			i := r.Intn(len(ps) - 1)
+			p, q := ps[i], ps[i+1]
+			m := n.clone()
+			m[p[0]][p[1]].oid, m[q[0]][q[1]].oid = m[q[0]][q[1]].oid, m[p[0]][p[1]].oid
+			return m, true
+		}},
+		{"value-swap", func(r *Rng, n c15N) (c15N, bool) {
+			ps := c15Where(n, func(c15A) bool { return true })
+			if len(ps) < 2 {
+				return nil, false
+			}
+			i := r.Intn(len(ps) - 1)
+			p, q := ps[i], ps[i+1]
+			m := n.clone()
+			m[p[0]][p[1]].oid, m[q[0]][q[1]].oid = m[q[0]][q[1]].oid, m[p[0]][p[1]].oid
+			m[p[0]][p[1]], m[q[0]][q[1]] = m[q[0]][q[1]], m[p[0]][p[1]]
+			return m, true
+		}},
+		// ---- more of the same
+		{"dup-rdn", func(r *Rng, n c15N) (c15N, bool) {
+			if len(n) == 0 {
+				return nil, false
+			}
+			i := r.Intn(len(n))
+			var m c15N
+			m = append(m, n[:i+1].clone()...)
+			return append(m, n[i:].clone()...), true
+		}},
+		{"dup-atv", func(r *Rng, n c15N) (c15N, bool) {
+			ps := c15Where(n, func(c15A) bool { return true })
+			if len(ps) == 0 {
+				return nil, false
+			}
+			p := ps[r.Intn(len(ps))]
+			m := n.clone()
+			m[p[0]] = append(m[p[0]], m[p[0]][p[1]])
+			return m, true
+		}},
+		{"add-rdn", func(r *Rng, n c15N) (c15N, bool) {
+			m := n.clone()
+			a := c15A{g.pairType(r), tagUTF8, "added"}
+			if r.Bool() {
+				return append(m, []c15A{a}), true
+			}
+			return append(c15N{{a}}, m...), true
+		}},
+		{"empty-rdn", func(r *Rng, n c15N) (c15N, bool) {
+			i := r.Intn(len(n) + 1)
+			var m c15N
+			m = append(m, n[:i].clone()...)
+			m = append(m, nil)
+			return append(m, n[i:].clone()...), true
+		}},
+	}
+}
+
+func c15Ats(oid []int, tag int, s string) []c15A { return []c15A{{oid, tag, s}} }
+
+// the fixed names every relation is applied to (the first two are the seeded change's witnesses)
+func c15PairBases() []c15N {
+	c, o, ou, cn := []int{2, 5, 4, 6}, []int{2, 5, 4, 10}, []int{2, 5, 4, 11}, []int{2, 5, 4, 3}
+	dc, uid := []int{0, 9, 2342, 19200300, 100, 1, 25}, []int{0, 9, 2342, 19200300, 100, 1, 1}
+	return []c15N{
+		{c15Ats(c, tagPrintable, "US"), c15Ats(o, tagPrintable, "Acme, Inc."), c15Ats(cn, tagPrintable, "Acme CA")},
+		{{{cn, tagUTF8, "x"}, {o, tagUTF8, "a+b"}}},
+		{c15Ats(o, tagUTF8, "a"), c15Ats(o, tagPrintable, "b"), {{ou, tagUTF8, "c"}, {ou, tagIA5, "d"}}, c15Ats(cn, tagUTF8, " \u00e9#")},
+		{c15Ats(dc, tagIA5, "com"), c15Ats(dc, tagIA5, "example"), {{uid, tagUTF8, "j;s"}, {[]int{1, 2, 3, 4}, tagUTF8, "v "}, {[]int{1, 2, 840, 113549, 1, 9, 1}, tagIA5, "j@example.com"}}},
+		{c15Ats(cn, tagUTF8, "\u65e5\u672c \U0001F600"), c15Ats([]int{2, 5, 4, 5}, tagPrintable, "12 34")},
+		{c15Ats(cn, tagPrintable, "a")},
+	}
+}
+
+func (g *c15Gen) emitPair(tag, carrier string, subj, iss c15N) {
+	g.emitCertIn(tag, carrier, subj.input(), iss.input(), subj.der(), iss.der())
+}
+
+// pairCases: every fixed base with every relation, both ways round (DER); then seeded bases
+// with one or two relations in every presentation
+func (g *c15Gen) pairCases(specials []string, random int) {
+	r := g.c.R
+	rels := g.rels()
+	for _, b := range c15PairBases() {
+		for _, rel := range rels {
+			if m, ok := rel.f(r, b); ok {
+				g.emitPair("pair-"+rel.name, "der", b, m)
+				g.emitPair("pair-"+rel.name, "der", m, b)
+			}
+		}
+	}
+	for i := 0; i < random; i++ {
+		b := g.pairBase(r, specials)
+		rel := rels[r.Intn(len(rels))]
+		m, ok := rel.f(r, b)
+		for tries := 0; !ok && tries < 8; tries++ {
+			rel = rels[r.Intn(len(rels))]
+			m, ok = rel.f(r, b)
+		}
+		if !ok {
+			rel, m = rels[0], b.clone()
+		}
+		name := rel.name
+		if r.Intn(4) == 0 {
+			rel2 := rels[r.Intn(len(rels))]
+			if m2, ok := rel2.f(r, m); ok {
+				m, name = m2, "two"
+			}
+		}
+		if r.Bool() {
+			b, m = m, b
+		}
+		g.emitPair("pair-"+name, c15Carriers[r.Intn(len(c15Carriers))], b, m)
+	}
+}
+
+// ---------- several certificates in one carrier (PEM bundle, Java keystore) ----------
+
+func c15JKS(r *Rng, ders [][]byte) []byte {
+	var b bytes.Buffer
+	b.Write([]byte{0xfe, 0xed, 0xfe, 0xed, 0, 0, 0, 2})
+	binary.Write(&b, binary.BigEndian, uint32(len(ders)))
+	for i, d := range ders {
+		alias := fmt.Sprintf("entry-%d", i)
+		binary.Write(&b, binary.BigEndian, uint32(2)) // trustedCertEntry
+		binary.Write(&b, binary.BigEndian, uint16(len(alias)))
+		b.WriteString(alias)
+		binary.Write(&b, binary.BigEndian, uint64(1700000000000+int64(i)))
+		binary.Write(&b, binary.BigEndian, uint16(5))
+		b.WriteString("X.509")
+		binary.Write(&b, binary.BigEndian, uint32(len(d)))
+		b.Write(d)
+	}
+	b.Write(r.Bytes(20)) // integrity MAC: not checked when inspecting
+	return b.Bytes()
+}
+
+// emitChain: certificate k has subject names[k] and issuer names[k+1] (the last one is its
+// own issuer); all in one carrier.  Certificates the library refuses are left out.
+func (g *c15Gen) emitChain(tag, carrier string, names []c15N) {
+	r := g.c.R
+	var ders [][]byte
+	ins := SL{}
+	for k := range names {
+		s, i := names[k], names[len(names)-1]
+		if k+1 < len(names) {
+			i = names[k+1]
+		}
+		der, ok := g.certDER(s.der(), i.der())
+		if !ok {
+			continue
+		}
+		if _, err := x509.ParseCertificate(der); err != nil {
+			continue
+		}
+		ders = append(ders, der)
+		ins = append(ins, SL{s.input(), i.input()})
+	}
+	if len(ders) == 0 {
+		return
+	}
+	var name string
+	var data []byte
+	switch carrier {
+	case "jks":
+		name, data = "store.jks", c15JKS(r, ders)
+	default:
+		name = "chain.pem"
+		for _, d := range ders {
+			data = append(data, pem.EncodeToMemory(&pem.Block{Type: "CERTIFICATE", Bytes: d})...)
+			if r.Intn(3) == 0 {
+				data = append(data, []byte("\n# next\n")...)
+			}
+		}
+	}
+	obs := guard(func() Sx {
+		i, ok := g.inspectBytes(name, data)
+		if !ok {
+			return ObsErr()
+		}
+		var got [][2]string
+		c15Collect(i, &got)
+		out := SL{}
+		for _, p := range got {
+			out = append(out, SL{S(p[0]), S(p[1])})
+		}
+		return ObsOk(out)
+	})
+	g.c.Emit("chain:"+tag, SL{S(carrier), ins}, obs)
+}
+
+func (g *c15Gen) chainCases(specials []string, random int) {
+	r := g.c.R
+	rels := g.rels()
+	carriers := []string{"bundle", "jks"}
+	// the fixed bases: each followed by three relatives
+	for bi, b := range c15PairBases() {
+		names := []c15N{b}
+		for _, k := range []int{1, 6, 12} {
+			if m, ok := rels[(k+bi)%len(rels)].f(r, b); ok {
+				names = append(names, m)
+			}
+		}
+		g.emitChain("fixed", carriers[bi%2], names)
+	}
+	for i := 0; i < random; i++ {
+		names := []c15N{g.pairBase(r, specials)}
+		for k := 1 + r.Intn(4); k > 0; k-- {
+			prev := names[len(names)-1]
+			if r.Intn(3) == 0 {
+				prev = names[0]
+			}
+			if m, ok := rels[r.Intn(len(rels))].f(r, prev); ok {
+				names = append(names, m)
+			} else {
+				names = append(names, prev.clone())
+			}
+		}
+		g.emitChain("random", carriers[r.Intn(2)], names)
+	}
+}
+
+// ---------- multi-byte characters next to every escaping position ----------
+// escapeRDNAttrValue decides by BYTE index (first byte, last byte) while it walks runes: a
+// multi-byte character before or after a character that is escaped by position (space, '#')
+// or always must not shift the decision.
+
+// 2, 3 and 4 byte characters; a combining mark, a zero-width space, a no-break space, a BOM
+var c15MB = []string{"\u00e9", "\u20ac", "\U0001F600", "\u0301", "\u200b", "\u00a0", "\ufeff", "\U0010FFFF"}
+
+func c15MBEscStrings() []string {
+	seen := map[string]bool{}
+	var out []string
+	add := func(s string) {
+		if !seen[s] {
+			seen[s] = true
+			out = append(out, s)
+		}
+	}
+	xs := []string{",", "+", "\"", "\\", "<", ">", ";", "#", "=", " ", "\x00"}
+	for _, m := range c15MB {
+		add(m)
+		add(m + m)
+		for _, x := range xs {
+			for _, s := range []string{
+				x + m, m + x, m + x + m, x + m + x, m + m + x, x + m + m, m + x + x, x + x + m, m + x + x + m,
+				"a" + m + x, x + m + "a", m + "a" + x, x + "a" + m, m + x + "a", "a" + x + m,
+			} {
+				add(s)
+			}
+			for _, y := range []string{" ", "#"} {
+				add(y + m + x)
+				add(x + m + y)
+				add(m + y + x)
+				add(x + y + m)
+			}
+		}
+	}
+	return out
+}
+
 func genC15(c *Ctx) {
 	g := &c15Gen{c: c, table: names.VerifX500AttrTypes()}
 	r := c.R
@@ -875,6 +1714,17 @@ func genC15(c *Ctx) {
 	// TeletexString with a Latin-1 byte: not UTF-8, shown as U+FFFD (outside the property's encodings; correspondence only)
 	g.emitRaw("corpus", dnDER(single(cn, strTLV(tagT61, "caf\xe9"))))
 	g.emitCert("corpus", dnDER(single(cn, strTLV(tagT61, "caf\xe9 "))), dnDER(single(cn, strTLV(tagBMP, "é #"))))
+	// round 3 (seeded change): getCertificateInfo repeated the subject's text on the Issuer line
+	// when the two names had the same pkix.Name.String(): the same RDNs in another order, one
+	// multi-valued RDN against two RDNs, PrintableString against UTF8String
+	{
+		cc, o := []int{2, 5, 4, 6}, []int{2, 5, 4, 10}
+		acme := c15N{c15Ats(cc, tagPrintable, "US"), c15Ats(o, tagPrintable, "Acme, Inc."), c15Ats(cn, tagPrintable, "Acme CA")}
+		g.emitPair("corpus", "der", acme, c15N{acme[1], acme[0], acme[2]})
+		g.emitPair("corpus", "der", c15N{c15Ats(cn, tagUTF8, "x"), c15Ats(o, tagUTF8, "a+b")}, c15N{{{cn, tagUTF8, "x"}, {o, tagUTF8, "a+b"}}})
+		g.emitPair("corpus", "der", c15N{c15Ats(cn, tagPrintable, "x")}, c15N{c15Ats(cn, tagUTF8, "x")})
+		g.emitPair("corpus", "der", acme, acme)
+	}
 	// positional cases of the escaping
 	for _, s := range []string{" ", "#", "  ", " #", "# ", "a ", " a", "aé", "é ", " é", "a#", "a=b", "=", "\\", "a\\ ", "\xff ", " \xff", "\xc3", "a\xe9"} {
 		g.emitEscape("corpus", s)
@@ -1001,5 +1851,25 @@ func genC15(c *Ctx) {
 	for i := 0; i < 60*scale; i++ {
 		g.emitCert("nonstring", dnDER(g.randName(true, specials)), ca)
 	}
+	// ---- multi-byte characters around every escaping position: through all four ops ----
+	for _, s := range c15MBEscStrings() {
+		g.emitEscape("mbesc", s)
+		g.emitDN("mbesc", pkix.RDNSequence{{{Type: cn, Value: s}}})
+		tag := tagUTF8
+		if r.Intn(4) == 0 && c15Carries(tagBMP, s) {
+			tag = tagBMP
+		}
+		g.emitRaw("mbesc", dnDER(single(org, strTLV(tag, s))))
+		if c.Thorough() || r.Intn(4) == 0 {
+			a, b := c15N{c15Ats(cn, tag, s)}, c15N{c15Ats(org, tagUTF8, s)}
+			if r.Bool() {
+				a, b = b, a
+			}
+			g.emitPair("mbesc", c15Carriers[r.Intn(len(c15Carriers))], a, b)
+		}
+	}
+	// ---- cert / chain: related issuer and subject (see pairCases, chainCases) ----
+	g.pairCases(specials, 500*scale)
+	g.chainCases(specials, 120*scale)
 	os.RemoveAll(filepath.Join(c.Tmp, "c15"))
 }
